@@ -4,7 +4,7 @@
 import json, subprocess, glob, os, sys
 MAP = {"5b22673": ["C04"], "9e113fc": ["C04"], "2492e48": ["C01"], "2d97c28": ["C01"], "8cc0a13": ["C01"], "ae1935c": ["C11"], "aa65ee5": ["C01"], "11d65eb": ["C01"],
        "0d57f92": ["C07"], "e3f2fbd": ["C10"], "89e7de8": ["C09"], "2c906a0": ["C17"], "51cdc4e": ["C19"], "2d5d9a8": ["C14"], "405b6bb": ["C14"], "92ca551": ["C01"],
-       "fe4d620": ["C01"], "2b2c903": ["C05", "C03"], "df07953": ["C18"], "6b32c5c": ["C18"]}
+       "fe4d620": ["C01"], "2b2c903": ["C05", "C03"], "df07953": ["C18"], "6b32c5c": ["C18"], "f99daf3": ["C06"]}
 entries = []
 assert subprocess.run(["git", "-C", "/repo", "diff", "--quiet"]).returncode == 0
 only = sys.argv[1:]
